@@ -57,12 +57,23 @@ def run_fault(pr, fault, vcs, dry_first, set_version):
         log = p.fake_log() if vcs else []
     case.update(exit=code, exc=exc, dry_exit=dry_code)
     changed = rwcommon.diff_files(before, after)
+    if dry_first and dry_code == 0 and code != 0:
+        pass
     muts = [a for a in log if len(a) > 1 and a[1] in MUTATING and a[1:3] != ["tag", "--list"]]
     # a fault that leaves every pattern matched elsewhere in the file is not a fault (break_pattern may remove
     # one of several occurrences only); a successful run is then legitimate
     if code == 0:
         if fault[0] in ("remove", "blank"):
             return case, "update exited 0 although file %r is %s" % (fault[1], "missing" if fault[0] == "remove" else "without any match")
+        # break_pattern: does the pattern really have no match left in its file?  (independent reference regex)
+        lay = [f for f in pr["layout"] if f["name"] == fault[1]][0]
+        raw = lay["raws"][fault[2]]
+        rx = projgen.ref_regex_for(raw, pr["vp"])
+        text = before[fault[1]].decode("utf-8")
+        import re as _re
+        lines = text.split("\r\n") if lay["mixed"] else _re.split(r"\r\n|\r|\n", text)
+        if not any(rx.search(l) for l in lines):
+            return case, "update exited 0 (and changed %r) although pattern %r has no match left in %r" % (changed, raw, fault[1])
         return case, None
     if changed:
         case["changed"] = changed
@@ -96,6 +107,10 @@ def run(chk, driver, tier):
             del files[fault[1]]
         elif fault[0] == "blank":
             files[fault[1]] = "nothing that matches\n"
+        else:
+            lay = [f for f in pr["layout"] if f["name"] == fault[1]][0]
+            occ = projgen.ref_render_raw(lay["raws"][fault[2]], pr["vp"], pr["old_state"])
+            files[fault[1]] = files[fault[1]].replace(occ, "<gone>")
         with sandbox.Project("c06") as p:
             for k2, v in files.items():
                 p.write_bytes(k2, v.encode("utf-8"))
